@@ -212,7 +212,7 @@ def run_pairs(task):
 # ---------------------------------------------------------------------------------------------
 # (ii) pairing observed in side-by-side view
 
-CONTENTS = ["foo bar baz", "foo bar qux", "foo  bar baz", "zzz"]
+CONTENTS = ["foo bar baz", "foo bar qux", "foo  bar baz", "zzz", "", "  "]
 
 
 def ws_equal(a, b):
@@ -220,7 +220,7 @@ def ws_equal(a, b):
 
 
 def run_pairing(task):
-    label, dist, deadline = task
+    label, dist, shard, deadline = task
     o = {"side-by-side": True, "width": "100", "max-line-distance": dist}
     args = build_args(base_opts(o))
     drv = explore.get_driver()
@@ -234,6 +234,7 @@ def run_pairing(task):
             for ml in itertools.product(range(len(CONTENTS)), repeat=m):
                 for pl in itertools.product(range(len(CONTENTS)), repeat=p):
                     cases.append((ml, pl))
+    cases = cases[shard[0]::shard[1]]
     viols = {}
     n = 0
     npaired = 0
@@ -241,8 +242,9 @@ def run_pairing(task):
         chunk = cases[i:i + 200]
         inputs = []
         for ml, pl in chunk:
-            body = "".join("-%d %s\n" % (k, CONTENTS[c]) for k, c in enumerate(ml)) + \
-                "".join("+%d %s\n" % (k, CONTENTS[c]) for k, c in enumerate(pl))
+            # lines are identified by the line numbers delta shows beside them (old numbers 1..m for the
+            # removed lines, new numbers 1..p for the added ones), so contents may be blank or repeated
+            body = "".join("-%s\n" % CONTENTS[c] for c in ml) + "".join("+%s\n" % CONTENTS[c] for c in pl)
             inputs.append((head + "@@ -1,%d +1,%d @@\n" % (len(ml), len(pl)) + body).encode())
         res = drv.render(cid, inputs)
         for (ml, pl), r in zip(chunk, res):
@@ -256,10 +258,8 @@ def run_pairing(task):
                 sr = obs.observe_sbs_row(row)
                 if sr is None:
                     continue
-                lt = sr.left.text.strip()
-                rt = sr.right.text.strip()
-                li = int(lt.split(" ")[0]) if sr.left.kind == "minus" and lt[:1].isdigit() else None
-                ri = int(rt.split(" ")[0]) if sr.right.kind == "plus" and rt[:1].isdigit() else None
+                li = int(sr.left.number) - 1 if sr.left.numclass == "ln_minus" and sr.left.number.isdigit() else None
+                ri = int(sr.right.number) - 1 if sr.right.numclass == "ln_plus" and sr.right.number.isdigit() else None
                 if li is not None:
                     order_m.append(li)
                 if ri is not None:
@@ -269,7 +269,6 @@ def run_pairing(task):
             err = None
             if order_m != list(range(len(ml))) or order_p != list(range(len(pl))):
                 err = "lines out of order or missing: removed %r added %r" % (order_m, order_p)
-            # the leading index digit makes every line distinct; compare contents without it
             for a, b in zip(pairs, pairs[1:]):
                 if not (a[0] < b[0] and a[1] < b[1]):
                     err = "pairs cross: %r" % (pairs,)
@@ -279,8 +278,8 @@ def run_pairing(task):
                     err = "max-line-distance 1: pairs %r, expected i-th with i-th %r" % (pairs, want)
             if dist == "0":
                 for a, b in pairs:
-                    xa = "%d %s" % (a, CONTENTS[ml[a]])
-                    yb = "%d %s" % (b, CONTENTS[pl[b]])
+                    xa = CONTENTS[ml[a]]
+                    yb = CONTENTS[pl[b]]
                     if not ws_equal(xa, yb):
                         err = "max-line-distance 0: %r paired with %r" % (xa, yb)
             npaired += len(pairs)
@@ -295,10 +294,54 @@ def run_pairing(task):
     return {"n": n, "pairs": npaired, "violations": list(viols.values()), "label": label}
 
 
+def run_long(task):
+    """deterministic long lines (hundreds of tokens): an identical pair carries no emphasis, and a
+    one-token difference at the start / middle / end emphasises exactly that token"""
+    dist, deadline = task
+    o = {"max-line-distance": dist, "width": "variable", "hunk-header-style": "110",
+         "hunk-header-decoration-style": "none"}
+    args = build_args(base_opts(o))
+    drv = explore.get_driver()
+    cid = drv.mkconfig(args)
+    head = b"diff --git a/f b/f\n--- a/f\n+++ b/f\n"
+    viols = {}
+    n = 0
+    for ntok in (50, 130, 200, 270, 400):
+        words = ["w%d" % (i % 7) for i in range(ntok)]
+        for pos in (None, 0, ntok // 2, ntok - 1):
+            x = " ".join(words)
+            yw = list(words)
+            if pos is not None:
+                yw[pos] = "CHANGED"
+            y = " ".join(yw)
+            data = head + b"@@ -1 +1 @@ H\n-" + x.encode() + b"\n+" + y.encode() + b"\n"
+            r = drv.render1(cid, data)
+            n += 1
+            if r.panic:
+                raise MachineryError("panic: " + r.panic)
+            rows = [row for row in term.decode(r.out) if obs.observe_row(row).kind in ("minus", "plus")]
+            if len(rows) != 2:
+                err = "expected 2 rows, got %d" % len(rows)
+            else:
+                err, em = analyse_pair(x, y, rows[0], rows[1], r"\w+", dist)
+                if not err and pos is not None and float(dist) >= 0.6 and not em:
+                    err = "a pair differing in 1 of %d tokens is not treated as a pair" % ntok
+            if err:
+                klass = "emph-long:" + err.split(":")[0][:40]
+                if klass not in viols:
+                    v = Violation(klass, "[%d tokens, change at %s] %s" % (ntok, pos, err[:300]),
+                                  [b"-" + x.encode(), b"+" + y.encode()])
+                    v.args = args
+                    viols[klass] = v
+    drv.drop(cid)
+    return {"n": n, "violations": list(viols.values())}
+
+
 ASSUMPTIONS = [
     "token alphabet {a, b, c, blank, '.', 'é', two blanks}; pairs exhaustive up to k tokens; the "
     "statement's 'randomly for long realistic lines' is sampling (another technique family): not "
-    "done, not claimed",
+    "done, not claimed; a small deterministic family of long lines (50-400 tokens, one token changed at "
+    "the start / middle / end, or none) is enumerated instead",
     "cells classified by reserved backgrounds: base 101/104, non-emph 102/105, emph 103/106, "
     "whitespace-error 108 (may stand for emphasis only at the end of a line)",
     "rule (c) applied when, at delta's documented token granularity, the lines are P.D.S / P.I.S "
@@ -327,7 +370,10 @@ def main(tier):
         for i in range(0, len(S4), 40):
             tasks.append(("regex=\\w+,distance=0.6,k=4", {}, REGEXES[0], "0.6", S4[i:i + 40], S4, deadline))
     res = explore.pmap(run_pairs, tasks)
-    res2 = explore.pmap(run_pairing, [("pairing,distance=%s" % d, d, deadline) for d in DISTANCES])
+    res2 = explore.pmap(run_pairing, [("pairing,distance=%s" % d, d, (i, 6), deadline)
+                                      for d in DISTANCES for i in range(6)])
+    res3 = explore.pmap(run_long, [(d, deadline) for d in DISTANCES])
+    res2 = res2 + [dict(r, pairs=0) for r in res3]
     n = sum(r["n"] for r in res)
     nemph = sum(r["emph"] for r in res)
     viols = []
